@@ -2236,6 +2236,21 @@ fn catalogue_routing(c: &mut Cat) {
         d.problem["fleet"]["vehicles"][n - 1]["profile"]["matrix"] = json!("no_such_profile");
         true
     });
+    c.add("vehicle-profile-unknown-but-named-by-a-matrix", "fleet.vehicles[].profile.matrix", "E1505", Breaker, |d, rng| {
+        // routing data is supplied under the undeclared name: the name is still not one of fleet.profiles
+        if d.matrices.is_empty() || d.matrices.iter().any(|m| m.get("profile").and_then(|p| p.as_str()).is_none()) {
+            return false;
+        }
+        let first = d.matrices[0]["profile"].as_str().unwrap_or("").to_string();
+        let copies: Vec<Value> = d.matrices.iter().filter(|m| m["profile"].as_str() == Some(&first)).cloned().collect();
+        for mut m in copies {
+            m["profile"] = json!("c10_routed");
+            d.matrices.push(m);
+        }
+        let n = list(&d.problem["fleet"], "vehicles").len();
+        d.problem["fleet"]["vehicles"][rng.usize_below(n)]["profile"]["matrix"] = json!("c10_routed");
+        true
+    });
     // E1502
     let targets: Vec<(&'static str, &'static str)> = vec![
         ("job-place", "plan.jobs[].<tasks>[].places[].location"),
